@@ -342,6 +342,18 @@ class Excited(SubCheck):
         if isinstance(na, dict) and isinstance(nb, dict):
             labels.append("nac_compared")
             top = len(ea) - 1
+            # True isolation is judged on the DENSE spectrum when it can be built (sp methods): the Davidson solver can skip the
+            # partner of a degenerate pair at symmetric geometries (recorded C16 finding), which then is invisible in the computed
+            # list -- PM6_SP AlCl3 (D3h), 4 states: NAC(S1,S2) of 13 1/A differed between orientations because S1 is one member of an
+            # E pair whose partner was not returned. (Alarm of a background sweep at seed 4; the code's NAC is not at fault.)
+            dense_ev = None
+            if method != "PM6":
+                try:
+                    from .c16 import dense as _dense
+
+                    dense_ev = np.linalg.eigvalsh(_dense(a.mol, 0)[0])
+                except Exception:
+                    dense_ev = None
             for key in na:
                 i, j = key
                 if i >= k or j >= k:
@@ -354,6 +366,9 @@ class Excited(SubCheck):
                 if i >= top or j >= top or M.is_linear(case["mol"]["tpl"]):
                     continue
                 if not all(abs(ea[s] - ea[u]) > 1e-2 for s in (i, j) for u in range(len(ea)) if u != s):
+                    continue
+                if dense_ev is not None and any(int((np.abs(dense_ev - ea[s]) < 1e-2).sum()) != 1 for s in (i, j)):
+                    labels.append("nac_pair_skipped:hidden_degeneracy")
                     continue
                 va, vb = tonp(na[key][0])[: len(Z)], tonp(nb[key][0])[: len(Z)]
                 ra = va @ R.T
